@@ -141,6 +141,26 @@ def const_value(node):
     raise ValueError('not a constant: ' + short(node))
 
 
+def const_members(mod, expr):
+    """the constants of a membership container: a tuple/list/set display, set()/frozenset()/tuple()
+    of one, or a module-level name bound (once) to one of these; None when it is something else"""
+    for _ in range(3):
+        if isinstance(expr, ast.Name) and mod is not None:
+            try:
+                expr = mod.toplevel_assign(expr.id)
+            except AnalysisError:
+                return None
+            continue
+        if isinstance(expr, ast.Call) and isinstance(expr.func, ast.Name) and expr.func.id in (
+                'set', 'frozenset', 'tuple', 'list') and len(expr.args) == 1 and not expr.keywords:
+            expr = expr.args[0]
+            continue
+        break
+    if isinstance(expr, (ast.Tuple, ast.List, ast.Set)) and all(isinstance(e, ast.Constant) for e in expr.elts):
+        return [e.value for e in expr.elts]
+    return None
+
+
 def names_in(node):
     return {n.id for n in ast.walk(node) if isinstance(n, ast.Name)}
 
@@ -699,3 +719,34 @@ def finish(ctx, level, explanation, t0, extra_cov=None, trusted_base=None):
                                                    o.reason, o.construct[:140]))
         out.write('VIOLATION property=%s replay=%s\n' % (prop, rp))
     return 1 if new_viol else 0
+
+
+class Proxy(object):
+    """Run another property's rule module (or helper) and file the obligations of the rules in
+    `keep` under our own rule id: the other property's rule is a necessary condition of ours too.
+    Everything else the other module decides is dropped."""
+
+    def __init__(self, ctx, rule, keep):
+        self.ctx, self._rule, self._keep = ctx, rule, tuple(keep)
+        self.repo = ctx.repo
+        self.tier = getattr(ctx, 'tier', 'quick')
+        self.analysed = {}
+        self.prop = getattr(ctx, 'prop', None)
+
+    def rule(self, *a, **k):
+        return None
+
+    def assume(self, *a, **k):
+        return None
+
+    def holds(self, rule, *a, **k):
+        return self.ctx.holds(self._rule, *a, **k) if rule in self._keep else None
+
+    def refuted(self, rule, *a, **k):
+        return self.ctx.refuted(self._rule, *a, **k) if rule in self._keep else None
+
+    def unknown(self, rule, *a, **k):
+        return self.ctx.unknown(self._rule, *a, **k) if rule in self._keep else None
+
+    def decide(self, rule, *a, **k):
+        return self.ctx.decide(self._rule, *a, **k) if rule in self._keep else None
